@@ -268,5 +268,5 @@ func (s *Server) handleAccessSet(w http.ResponseWriter, r *http.Request) {
 	s.conf.AllowedClients = list.AllowedClients
 	s.conf.DisallowedClients = list.DisallowedClients
 	s.conf.BlockedHosts = list.BlockedHosts
-	s.access = a
+	s.access.Store(a)
 }
